@@ -894,9 +894,13 @@ Definition core_regular (c : core) : Prop :=
              forall e, c_stop c = Some e -> (e - c_start c) mod k = 0)
   \/ (truthy_step (c_step c) = None /\ c_stop c = Some (c_start c)).
 
+Definition step_of (sh : shape) : option Z :=
+  match sh with OneOff _ => None | Up _ k _ | Down _ k _ => Some k end.
+
 Definition core_ok (c : core) (sh : shape) (cs : Z) (ce : option Z) : Prop :=
   (forall p, core_member c p <-> prog sh p /\ in_ctx cs ce p) /\
-  (c_start c, c_stop c) = bounds sh cs ce /\ core_regular c.
+  (c_start c, c_stop c) = bounds sh cs ce /\ core_regular c /\
+  truthy_step (c_step c) = step_of sh.
 
 Lemma pfe_start e cs b : point_from_expr e (Some cs) b = Ok (Some (resolve e cs)).
 Proof. destruct e as [[v|j]|]; reflexivity. Qed.
@@ -929,7 +933,7 @@ Qed.
 Lemma oneoff_ok a cs ce :
   in_ctx cs ce a -> core_ok {| c_start := a; c_stop := Some a; c_step := None |} (OneOff a) cs ce.
 Proof.
-  intros Hc. split; [|split; [reflexivity|right; split; reflexivity]].
+  intros Hc. split; [|split; [reflexivity|split; [right; split; reflexivity|reflexivity]]].
   intros p. rewrite core_member_oneoff. cbn. split; [intros ->; auto|tauto].
 Qed.
 
@@ -940,7 +944,7 @@ Lemma up_inf_ok a k cs ce :
              c_stop := match ce with Some F => Some (F - (F - a) mod k) | None => None end;
              c_step := Some k |} (Up a k None) cs ce.
 Proof.
-  intros Hk Ha. split; [|split; [reflexivity|]].
+  intros Hk Ha. split; [|split; [reflexivity|split; [|cbn [c_step step_of]; apply truthy_pos; exact Hk]]].
   - intros p. rewrite core_member_stepped by exact Hk. cbn [prog]. unfold in_ctx.
     destruct ce as [F|].
     + pose proof (Z.mod_pos_bound (F - a) k Hk) as Hb.
@@ -968,7 +972,7 @@ Lemma up_n_ok a k m cs ce :
   core_ok {| c_start := a; c_stop := Some (a + k * (m - 1)); c_step := Some k |}
           (Up a k (Some m)) cs ce.
 Proof.
-  intros Hk Ha Hm HF. split; [|split].
+  intros Hk Ha Hm HF. split; [|split; [|split; [|cbn [c_step step_of]; apply truthy_pos; exact Hk]]].
   - intros p. rewrite core_member_stepped by exact Hk. cbn [prog]. unfold in_ctx. split.
     + intros (H1 & H2 & [i ->]). specialize (H2 _ eq_refl).
       split; [exists i; repeat split; [nia|]|].
@@ -987,7 +991,7 @@ Lemma down_n_ok e k m cs ce :
   core_ok {| c_start := e - k * (m - 1); c_stop := Some e; c_step := Some k |}
           (Down e k (Some m)) cs ce.
 Proof.
-  intros Hk Hm Hs HF. split; [|split].
+  intros Hk Hm Hs HF. split; [|split; [|split; [|cbn [c_step step_of]; apply truthy_pos; exact Hk]]].
   - intros p. rewrite core_member_stepped by exact Hk. cbn [prog]. unfold in_ctx. split.
     + intros (H1 & H2 & [i ->]). specialize (H2 _ eq_refl).
       split; [exists (m - 1 - i); repeat split; [nia|lia|]|].
@@ -1009,7 +1013,7 @@ Proof.
   intros Hk.
   pose proof (Z.mod_pos_bound (e - cs) k Hk) as Hb.
   pose proof (Z.div_mod (e - cs) k ltac:(lia)) as Hd.
-  split; [|split; [reflexivity|]].
+  split; [|split; [reflexivity|split; [|cbn [c_step step_of]; apply truthy_pos; exact Hk]]].
   - intros p. rewrite core_member_stepped by exact Hk. cbn [prog]. unfold in_ctx. split.
     + intros (H1 & H2 & [i ->]). specialize (H2 _ eq_refl).
       split; [exists ((e - cs) / k - i); repeat split; [nia|lia|discriminate]|].
@@ -1022,3 +1026,466 @@ Proof.
     split; [reflexivity|split; [exact Hk|]]. intros e' [= <-].
     replace (e - (cs + (e - cs) mod k)) with (((e - cs) / k) * k) by lia. apply Z.mod_mul. lia.
 Qed.
+
+(* ================================================================== *)
+(* 9. the constructor on inputs outside the defect classes             *)
+(* ================================================================== *)
+Lemma init_core_fmt3 f cs ce sh :
+  f_fmt f = 3 -> f_end f = None ->
+  shape_of f cs ce = Some sh -> sane sh cs ce ->
+  exists c, init_core f cs ce = Ok c /\ core_ok c sh cs ce.
+Proof.
+  intros Hfmt Hend Hsh Hsane. unfold shape_of in Hsh. rewrite Hfmt in Hsh. cbn in Hsh.
+  unfold init_core. rewrite Hfmt, Hend, pfe_start, pfe_none. cbn [bind Z.eqb Pos.eqb orb].
+  set (a := resolve (f_start f) cs) in *.
+  destruct (f_intv f) as [k|].
+  - destruct (f_reps f) as [n|].
+    + destruct (n =? 1) eqn:En.
+      * injection Hsh as <-. replace (n <=? 1) with true by lia. cbn [bind truthy_step].
+        eexists; split; [reflexivity|]. apply oneoff_ok. exact Hsane.
+      * injection Hsh as <-. cbn in Hsane. destruct Hsane as (Hk & Ha & Hn).
+        destruct (Hn n eq_refl) as [Hn2 HF].
+        replace (n <=? 1) with false by lia. cbn [bind]. rewrite truthy_pos by exact Hk.
+        replace (k <? 0) with false by lia.
+        replace (a <? cs) with false by lia.
+        eexists; split; [reflexivity|].
+        assert (Hst : match ce with
+          | Some F => if a + k * (n - 1) >? F then Some (F - k + (F - a) mod k)
+                      else Some (a + k * (n - 1))
+          | None => Some (a + k * (n - 1)) end = Some (a + k * (n - 1))).
+        { destruct ce as [F|]; [|reflexivity]. specialize (HF F eq_refl).
+          replace (a + k * (n - 1) >? F) with false by lia. reflexivity. }
+        rewrite Hst. apply up_n_ok; auto.
+    + injection Hsh as <-. cbn in Hsane. destruct Hsane as (Hk & Ha & _).
+      destruct ce as [F|].
+      * replace (k =? 0) with false by lia. cbn [bind]. rewrite truthy_pos by exact Hk.
+        replace (k <? 0) with false by lia.
+        replace (a <? cs) with false by lia.
+        pose proof (Z.mod_pos_bound (F - a) k Hk) as Hb.
+        replace (F - (F - a) mod k >? F) with false by lia.
+        eexists; split; [reflexivity|]. apply (up_inf_ok a k cs (Some F)); auto.
+      * cbn [bind]. rewrite truthy_pos by exact Hk.
+        replace (k <? 0) with false by lia.
+        replace (a <? cs) with false by lia.
+        eexists; split; [reflexivity|]. apply (up_inf_ok a k cs None); auto.
+  - injection Hsh as <-. cbn [bind truthy_step].
+    eexists; split; [reflexivity|]. apply oneoff_ok. exact Hsane.
+Qed.
+
+Lemma init_core_fmt4 f cs ce sh :
+  f_fmt f = 4 -> f_start f = None ->
+  shape_of f cs ce = Some sh -> sane sh cs ce ->
+  exists c, init_core f cs ce = Ok c /\ core_ok c sh cs ce.
+Proof.
+  intros Hfmt Hstart Hsh Hsane. unfold shape_of in Hsh. rewrite Hfmt in Hsh. cbn in Hsh.
+  destruct (end_point (f_end f) ce) as [e|] eqn:Ee; [|discriminate].
+  unfold init_core. rewrite Hfmt, Hstart, (pfe_end _ _ _ _ Ee). cbn [point_from_expr bind Z.eqb Pos.eqb orb].
+  destruct (f_reps f) as [n|].
+  - destruct (n =? 1) eqn:En.
+    + assert (Hsh' : sh = OneOff e) by (destruct (f_intv f); congruence). subst sh.
+      replace (n <=? 1) with true by lia. cbn [bind truthy_step].
+      eexists; split; [reflexivity|]. apply oneoff_ok. exact Hsane.
+    + destruct (f_intv f) as [k|]; [|discriminate]. injection Hsh as <-.
+      cbn in Hsane. destruct Hsane as (Hk & Hn2 & Hs & HF).
+      replace (n <=? 1) with false by lia. cbn [bind]. rewrite truthy_pos by exact Hk.
+      replace (k <? 0) with false by lia.
+      replace (e - k * (n - 1) <? cs) with false by lia.
+      assert (Hst : match ce with
+          | Some F => if e >? F then Some (F - k + (F - (e - k * (n - 1))) mod k) else Some e
+          | None => Some e end = Some e).
+      { destruct ce as [F|]; [|reflexivity]. specialize (HF F eq_refl).
+        replace (e >? F) with false by lia. reflexivity. }
+      rewrite Hst. eexists; split; [reflexivity|]. apply down_n_ok; auto.
+  - destruct (f_intv f) as [k|]; [|discriminate]. injection Hsh as <-.
+    cbn in Hsane. destruct Hsane as (Hk & ->).
+    replace (k =? 0) with false by lia. cbn [bind]. rewrite truthy_pos by exact Hk.
+    replace (k <? 0) with false by lia.
+    pose proof (Z.mod_pos_bound (e - cs) k Hk) as Hb.
+    replace (e >? e) with false by lia.
+    assert (Hst : (if cs - (e - cs) mod k <? cs then cs + (cs - (cs - (e - cs) mod k)) mod k
+                   else cs - (e - cs) mod k) = cs + (e - cs) mod k).
+    { destruct (cs - (e - cs) mod k <? cs) eqn:E.
+      - replace (cs - (cs - (e - cs) mod k)) with ((e - cs) mod k) by lia.
+        rewrite Z.mod_small by lia. reflexivity.
+      - lia. }
+    rewrite Hst. eexists; split; [reflexivity|]. apply down_inf_ok; auto.
+Qed.
+
+Lemma init_core_fmt1_once f cs ce sh :
+  f_fmt f = 1 -> f_reps f = Some 1 ->
+  shape_of f cs ce = Some sh -> sane sh cs ce ->
+  exists c, init_core f cs ce = Ok c /\ core_ok c sh cs ce.
+Proof.
+  intros Hfmt Hreps Hsh Hsane. unfold shape_of in Hsh. rewrite Hfmt, Hreps in Hsh. cbn in Hsh.
+  destruct (end_point (f_end f) ce) as [e|] eqn:Ee; [|discriminate]. injection Hsh as <-.
+  unfold init_core. rewrite Hfmt, Hreps, pfe_start, (pfe_end _ _ _ _ Ee).
+  cbn [bind Z.eqb Pos.eqb orb truthy_step].
+  eexists; split; [reflexivity|]. apply oneoff_ok. exact Hsane.
+Qed.
+
+(* Rn/START/END with n <> 1 is rejected whatever the values: the step is a float *)
+Lemma init_core_fmt1_rejected f cs ce n :
+  f_fmt f = 1 -> f_reps f = Some n -> n <> 1 -> exists e, init_core f cs ce = Err e.
+Proof.
+  intros Hfmt Hreps Hn. unfold init_core. rewrite Hfmt, Hreps, pfe_start. cbn [bind Z.eqb Pos.eqb orb].
+  destruct (point_from_expr (f_end f) ce true) as [o|er]; cbn [bind]; [|eauto].
+  replace (n =? 1) with false by lia. destruct o; cbn [bind]; eauto.
+Qed.
+
+Lemma init_core_fmt1_rejected_kind f cs ce n e :
+  f_fmt f = 1 -> f_reps f = Some n -> n <> 1 -> end_point (f_end f) ce = Some e ->
+  init_core f cs ce = Err EIntervalParse.
+Proof.
+  intros Hfmt Hreps Hn He. unfold init_core.
+  rewrite Hfmt, Hreps, pfe_start, (pfe_end _ _ _ _ He). cbn [bind Z.eqb Pos.eqb orb].
+  replace (n =? 1) with false by lia. reflexivity.
+Qed.
+
+Definition sane_form (f : form) (cs : Z) (ce : option Z) : Prop :=
+  wf_form f /\ (f_fmt f = 1 -> f_reps f = Some 1) /\
+  exists sh, shape_of f cs ce = Some sh /\ sane sh cs ce.
+
+Lemma init_core_sane f cs ce sh :
+  wf_form f -> (f_fmt f = 1 -> f_reps f = Some 1) ->
+  shape_of f cs ce = Some sh -> sane sh cs ce ->
+  exists c, init_core f cs ce = Ok c /\ core_ok c sh cs ce.
+Proof.
+  intros [W3 W4] H1 Hsh Hsane.
+  destruct (f_fmt f =? 3) eqn:E3; [assert (f_fmt f = 3) by lia; apply init_core_fmt3; auto|].
+  destruct (f_fmt f =? 4) eqn:E4; [assert (f_fmt f = 4) by lia; apply init_core_fmt4; auto|].
+  destruct (f_fmt f =? 1) eqn:E1; [assert (f_fmt f = 1) by lia; apply init_core_fmt1_once; auto|].
+  unfold shape_of in Hsh. rewrite E3, E4, E1 in Hsh. discriminate.
+Qed.
+
+Lemma denote0_core f cs ce sh c p :
+  shape_of f cs ce = Some sh -> core_ok c sh cs ce ->
+  (core_member c p <-> denote0 f cs ce p).
+Proof.
+  intros Hsh (Hm & _). rewrite Hm. unfold denote0. split.
+  - intros [H1 H2]. exists sh. auto.
+  - intros (sh' & Hsh' & H1 & H2). rewrite Hsh in Hsh'. injection Hsh' as <-. auto.
+Qed.
+
+(* ---------- exclusions ---------- *)
+Definition item_excludes (lo : Z) (hi : option Z) (it : xitem) (p : Z) : Prop :=
+  match it with XP q => p = q | XS g => denote0 g lo hi p end.
+
+Definition sane_item (lo : Z) (hi : option Z) (it : xitem) : Prop :=
+  match it with XP _ => True | XS g => sane_form g lo hi end.
+
+Lemma build_excl_sane its lo hi :
+  (forall it, In it its -> sane_item lo hi it) ->
+  exists x, build_excl its lo hi = Ok x /\
+            forall p, excl_member x p <-> exists it, In it its /\ item_excludes lo hi it p.
+Proof.
+  induction its as [|it r IH]; intros Hs.
+  - exists ([], []). split; [reflexivity|]. intros p. unfold excl_member. cbn.
+    split; [intros [[]|[c [[] _]]]|intros [it [[] _]]].
+  - destruct IH as [x [Hx Hm]]; [intros it' Hin; apply Hs; now right|].
+    destruct it as [q|g].
+    + exists (q :: fst x, snd x). split; [cbn [build_excl]; rewrite Hx; reflexivity|].
+      intros p. specialize (Hm p). unfold excl_member in *. cbn [fst snd In]. split.
+      * intros [[<-|Hin]|Hc].
+        -- exists (XP q). split; [now left|reflexivity].
+        -- destruct (proj1 Hm (or_introl Hin)) as [it' [Hi He]]. exists it'. split; [now right|exact He].
+        -- destruct (proj1 Hm (or_intror Hc)) as [it' [Hi He]]. exists it'. split; [now right|exact He].
+      * intros [it' [[<-|Hi] He]].
+        -- cbn in He. left. left. congruence.
+        -- destruct (proj2 Hm (ex_intro _ it' (conj Hi He))) as [H|H]; [left; right; exact H|right; exact H].
+    + destruct (Hs (XS g) (or_introl eq_refl)) as (Wg & H1 & shg & Hshg & Hsg).
+      destruct (init_core_sane g lo hi shg Wg H1 Hshg Hsg) as [c [Hc Hok]].
+      exists (fst x, c :: snd x). split; [cbn [build_excl]; rewrite Hc, Hx; reflexivity|].
+      intros p. specialize (Hm p). unfold excl_member in *. cbn [fst snd In]. split.
+      * intros [Hin|[c' [[<-|Hc'] Hmem]]].
+        -- destruct (proj1 Hm (or_introl Hin)) as [it' [Hi He]]. exists it'. split; [now right|exact He].
+        -- exists (XS g). split; [now left|]. cbn. apply (denote0_core g lo hi shg c p Hshg Hok). exact Hmem.
+        -- destruct (proj1 Hm (or_intror (ex_intro _ c' (conj Hc' Hmem)))) as [it' [Hi He]].
+           exists it'. split; [now right|exact He].
+      * intros [it' [[<-|Hi] He]].
+        -- cbn in He. right. exists c. split; [now left|].
+           apply (denote0_core g lo hi shg c p Hshg Hok). exact He.
+        -- destruct (proj2 Hm (ex_intro _ it' (conj Hi He))) as [H|[c' [Hc' Hmem]]];
+             [left; exact H|right; exists c'; split; [now right|exact Hmem]].
+Qed.
+
+(* the set a recurrence with exclusions denotes: the clipped progression minus
+   the exclusion points and minus the points of every exclusion sequence, the
+   latter read in the context [first point, last point] of the recurrence *)
+Definition denote (f : form) (items : option (list xitem)) (cs : Z) (ce : option Z) (p : Z) : Prop :=
+  denote0 f cs ce p /\
+  forall sh its it, shape_of f cs ce = Some sh -> items = Some its -> In it its ->
+    ~ item_excludes (fst (bounds sh cs ce)) (snd (bounds sh cs ce)) it p.
+
+Definition sane_items (sh : shape) (items : option (list xitem)) (cs : Z) (ce : option Z) : Prop :=
+  forall its it, items = Some its -> In it its ->
+    sane_item (fst (bounds sh cs ce)) (snd (bounds sh cs ce)) it.
+
+Definition seq_regular (s : seq) : Prop :=
+  (exists k, stepped s k /\ stop_on_grid s k) \/
+  (oneoff s /\ c_stop (s_core s) = Some (c_start (s_core s))).
+
+Lemma init_sane f items cs ce sh :
+  wf_form f -> (f_fmt f = 1 -> f_reps f = Some 1) ->
+  shape_of f cs ce = Some sh -> sane sh cs ce -> sane_items sh items cs ce ->
+  exists s, init f items cs ce = Ok s /\
+            (forall p, seq_member s p <-> denote f items cs ce p) /\
+            seq_regular s /\
+            (c_start (s_core s), c_stop (s_core s)) = bounds sh cs ce /\
+            truthy_step (c_step (s_core s)) = step_of sh.
+Proof.
+  intros W H1 Hsh Hsane Hits.
+  destruct (init_core_sane f cs ce sh W H1 Hsh Hsane) as [c [Hc Hok]].
+  pose proof Hok as (Hmem & Hb & Hreg & Hstep).
+  assert (Hregs : forall x, seq_regular {| s_core := c; s_excl := x |}).
+  { intros x. destruct Hreg as [[k (Hk & Hpos & Hg)]|[Ho Hst]].
+    - left. exists k. split; [split; assumption|exact Hg].
+    - right. split; assumption. }
+  unfold init. rewrite Hc. cbn [bind].
+  assert (Hnone : forall p, seq_member {| s_core := c; s_excl := None |} p <-> denote0 f cs ce p).
+  { intros p. unfold seq_member. cbn [s_core s_excl]. rewrite (denote0_core f cs ce sh c p Hsh Hok).
+    split; [tauto|]. intros H. split; [exact H|discriminate]. }
+  destruct items as [[|it0 its]|].
+  - eexists; split; [reflexivity|]. split; [|split; [apply Hregs|split; [exact Hb|exact Hstep]]].
+    intros p. rewrite Hnone. unfold denote. split; [|tauto].
+    intros H. split; [exact H|]. intros sh' its it _ [= <-] [].
+  - assert (Hs' : forall it, In it (it0 :: its) ->
+                  sane_item (fst (bounds sh cs ce)) (snd (bounds sh cs ce)) it).
+    { intros it Hin. eapply Hits; eauto. }
+    rewrite <- Hb in Hs'. cbn [fst snd] in Hs'.
+    destruct (build_excl_sane (it0 :: its) (c_start c) (c_stop c) Hs') as [x [Hx Hxm]].
+    rewrite Hx. cbn [bind]. eexists; split; [reflexivity|].
+    split; [|split; [apply Hregs|split; [exact Hb|exact Hstep]]].
+    intros p. unfold seq_member, denote. cbn [s_core s_excl].
+    rewrite (denote0_core f cs ce sh c p Hsh Hok). split.
+    + intros [Hd Hex]. split; [exact Hd|].
+      intros sh' its' it Hsh' [= <-] Hin Hie. rewrite Hsh in Hsh'. injection Hsh' as <-.
+      rewrite <- Hb in Hie. cbn [fst snd] in Hie.
+      apply (Hex x eq_refl). apply Hxm. exists it. auto.
+    + intros [Hd Hex]. split; [exact Hd|]. intros x' [= <-] Hxp.
+      apply Hxm in Hxp. destruct Hxp as [it [Hin Hie]].
+      apply (Hex sh (it0 :: its) it Hsh eq_refl Hin). rewrite <- Hb. exact Hie.
+  - eexists; split; [reflexivity|]. split; [|split; [apply Hregs|split; [exact Hb|exact Hstep]]].
+    intros p. rewrite Hnone. unfold denote. split; [|tauto].
+    intros H. split; [exact H|]. intros sh' its it _ [=].
+Qed.
+
+(* ================================================================== *)
+(* 10. end to end: constructor + queries against [denote]              *)
+(* ================================================================== *)
+Lemma least_gt_ext (M M' : Z -> Prop) p r :
+  (forall q, M q <-> M' q) -> is_least_gt M p r -> is_least_gt M' p r.
+Proof.
+  intros E. destruct r as [m|]; cbn.
+  - intros (H1 & H2 & H3). split; [apply E; exact H1|split; [exact H2|]].
+    intros m' Hm'. apply H3. apply E. exact Hm'.
+  - intros H m' Hm'. apply H. apply E. exact Hm'.
+Qed.
+Lemma least_ge_ext (M M' : Z -> Prop) p r :
+  (forall q, M q <-> M' q) -> is_least_ge M p r -> is_least_ge M' p r.
+Proof.
+  intros E. destruct r as [m|]; cbn.
+  - intros (H1 & H2 & H3). split; [apply E; exact H1|split; [exact H2|]].
+    intros m' Hm'. apply H3. apply E. exact Hm'.
+  - intros H m' Hm'. apply H. apply E. exact Hm'.
+Qed.
+Lemma greatest_lt_ext (M M' : Z -> Prop) p r :
+  (forall q, M q <-> M' q) -> is_greatest_lt M p r -> is_greatest_lt M' p r.
+Proof.
+  intros E. destruct r as [m|]; cbn.
+  - intros (H1 & H2 & H3). split; [apply E; exact H1|split; [exact H2|]].
+    intros m' Hm'. apply H3. apply E. exact Hm'.
+  - intros H m' Hm'. apply H. apply E. exact Hm'.
+Qed.
+Lemma min_ext (M M' : Z -> Prop) r : (forall q, M q <-> M' q) -> is_min M r -> is_min M' r.
+Proof.
+  intros E. destruct r as [m|]; cbn.
+  - intros (H1 & H3). split; [apply E; exact H1|]. intros m' Hm'. apply H3. apply E. exact Hm'.
+  - intros H m' Hm'. apply (H m'). apply E. exact Hm'.
+Qed.
+Lemma max_ext (M M' : Z -> Prop) r : (forall q, M q <-> M' q) -> is_max M r -> is_max M' r.
+Proof.
+  intros E. destruct r as [m|]; cbn.
+  - intros (H1 & H3). split; [apply E; exact H1|]. intros m' Hm'. apply H3. apply E. exact Hm'.
+  - intros H m' Hm'. apply (H m'). apply E. exact Hm'.
+Qed.
+
+(* an input outside every defect class of the constructor *)
+Definition sane_input (f : form) (items : option (list xitem)) (cs : Z) (ce : option Z)
+  (sh : shape) : Prop :=
+  wf_form f /\ (f_fmt f = 1 -> f_reps f = Some 1) /\
+  shape_of f cs ce = Some sh /\ sane sh cs ce /\ sane_items sh items cs ce.
+
+Section EndToEnd.
+  Variables (f : form) (items : option (list xitem)) (cs : Z) (ce : option Z)
+            (sh : shape) (s : seq).
+  Hypothesis Hin : sane_input f items cs ce sh.
+  Hypothesis Hs : init f items cs ce = Ok s.
+
+  Let M := denote f items cs ce.
+  Let lo := fst (bounds sh cs ce).
+  Let hi := snd (bounds sh cs ce).
+
+  Lemma e2e_facts :
+    (forall p, seq_member s p <-> M p) /\ seq_regular s /\
+    c_start (s_core s) = lo /\ c_stop (s_core s) = hi /\
+    truthy_step (c_step (s_core s)) = step_of sh.
+  Proof.
+    destruct Hin as (W & H1 & Hsh & Hsane & Hits).
+    destruct (init_sane f items cs ce sh W H1 Hsh Hsane Hits) as (s' & Hs' & Hm & Hr & Hb & Hst).
+    rewrite Hs in Hs'. injection Hs' as <-. subst lo hi. rewrite <- Hb. cbn [fst snd]. auto.
+  Qed.
+
+  Lemma e2e_regular : regular s.
+  Proof.
+    destruct e2e_facts as (_ & [[k [Hk _]]|[Ho _]] & _); [left; eauto|right; exact Ho].
+  Qed.
+
+  Lemma e2e_stepped k : step_of sh = Some k -> stepped s k /\ stop_on_grid s k.
+  Proof.
+    intros Hk. destruct e2e_facts as (_ & Hr & _ & _ & Hst). rewrite Hk in Hst.
+    destruct Hr as [[k' [[Hk' Hpos] Hg]]|[Ho _]].
+    - rewrite Hk' in Hst. injection Hst as ->. split; [split; assumption|exact Hg].
+    - unfold oneoff in Ho. congruence.
+  Qed.
+
+  Lemma e2e_oneoff :
+    step_of sh = None -> oneoff s /\ c_stop (s_core s) = Some (c_start (s_core s)).
+  Proof.
+    intros Hk. destruct e2e_facts as (_ & Hr & _ & _ & Hst). rewrite Hk in Hst.
+    destruct Hr as [[k' [[Hk' Hpos] Hg]]|Ho]; [congruence|exact Ho].
+  Qed.
+
+  Lemma e2e_valid p : is_valid s p = true <-> M p.
+  Proof. rewrite is_valid_iff. apply e2e_facts. Qed.
+
+  Lemma e2e_first fuel p r : get_first_point fuel s p = Ok r -> is_least_ge M p r.
+  Proof.
+    intros H. apply (least_ge_ext (seq_member s)); [apply e2e_facts|].
+    eapply first_regular; eauto. apply e2e_regular.
+  Qed.
+
+  Lemma e2e_next fuel p r :
+    (forall k, step_of sh = Some k -> lo - k <= p) ->
+    (step_of sh = None -> p < lo -> M lo) ->
+    get_next_point fuel s p = Ok r -> is_least_gt M p r.
+  Proof.
+    intros Hk Ho H. apply (least_gt_ext (seq_member s)); [apply e2e_facts|].
+    destruct e2e_facts as (Hm & _ & Hlo & _ & _).
+    destruct (step_of sh) as [k|] eqn:Est.
+    - destruct (e2e_stepped k Est) as [Hst _]. eapply next_stepped; eauto.
+      rewrite Hlo. apply Hk. reflexivity.
+    - destruct (e2e_oneoff Est) as [Hoo _]. eapply next_oneoff; eauto.
+      rewrite Hlo. intros Hlt. apply Hm. apply Ho; auto.
+  Qed.
+
+  Lemma e2e_prev fuel p r k :
+    step_of sh = Some k -> (forall e, hi = Some e -> p <= e + k) ->
+    get_prev_point fuel s p = Ok r -> is_greatest_lt M p r.
+  Proof.
+    intros Hk Hp H. apply (greatest_lt_ext (seq_member s)); [apply e2e_facts|].
+    destruct e2e_facts as (_ & _ & _ & Hhi & _).
+    destruct (e2e_stepped k Hk) as [Hst Hg]. eapply prev_stepped; eauto.
+    rewrite Hhi. exact Hp.
+  Qed.
+
+  Lemma e2e_nprev fuel p r :
+    (forall k e, step_of sh = Some k -> hi = Some e -> p <= e + k) ->
+    get_nearest_prev_point fuel s p = Ok r -> is_greatest_lt M p r.
+  Proof.
+    intros Hp H. apply (greatest_lt_ext (seq_member s)); [apply e2e_facts|].
+    destruct e2e_facts as (_ & _ & _ & Hhi & _).
+    destruct (step_of sh) as [k|] eqn:Est.
+    - destruct (e2e_stepped k Est) as [Hst Hg]. eapply nprev_stepped; eauto.
+      intros _ e He. rewrite Hhi in He. eapply Hp; eauto.
+    - destruct (e2e_oneoff Est) as [Hoo _]. eapply nprev_oneoff; eauto.
+  Qed.
+
+  Lemma e2e_nos fuel p r k :
+    step_of sh = Some k -> (exists i, p = lo + i * k) -> lo - k <= p ->
+    get_next_point_on_sequence fuel s p = Ok r -> is_least_gt M p r.
+  Proof.
+    intros Hk Hg Hp H. apply (least_gt_ext (seq_member s)); [apply e2e_facts|].
+    destruct e2e_facts as (_ & _ & Hlo & _ & _).
+    destruct (e2e_stepped k Hk) as [Hst _]. eapply nos_stepped; eauto.
+    - rewrite Hlo. apply grid_iff; [destruct Hst; lia|exact Hg].
+    - rewrite Hlo. exact Hp.
+  Qed.
+
+  Lemma e2e_start fuel r :
+    (forall e, hi = Some e -> lo <= e) -> get_start_point fuel s = Ok r -> is_min M r.
+  Proof.
+    intros Hne H. apply (min_ext (seq_member s)); [apply e2e_facts|].
+    destruct e2e_facts as (_ & _ & Hlo & Hhi & _).
+    eapply start_regular; eauto; [apply e2e_regular|]. rewrite Hlo, Hhi. exact Hne.
+  Qed.
+
+  Lemma e2e_stop fuel r e :
+    hi = Some e -> lo <= e -> get_stop_point fuel s = Ok r -> is_max M r.
+  Proof.
+    intros He Hne H. apply (max_ext (seq_member s)); [apply e2e_facts|].
+    destruct e2e_facts as (_ & _ & Hlo & Hhi & _).
+    destruct (step_of sh) as [k|] eqn:Est.
+    - destruct (e2e_stepped k Est) as [Hst Hg]. apply (stop_stepped fuel s k e r Hst Hg); [rewrite Hhi; exact He|rewrite Hlo; exact Hne|exact H].
+    - destruct (e2e_oneoff Est) as [Hoo Hst]. eapply stop_oneoff; eauto.
+  Qed.
+
+  Lemma e2e_stop_unbounded fuel r : hi = None -> get_stop_point fuel s = Ok r -> r = None.
+  Proof.
+    intros He. destruct e2e_facts as (_ & _ & _ & Hhi & _). apply stop_unbounded. congruence.
+  Qed.
+End EndToEnd.
+
+(* ================================================================== *)
+(* 11. every constructed sequence is regular (step > 0 or one-off)      *)
+(* ================================================================== *)
+Lemma init_core_regular f cs ce c :
+  init_core f cs ce = Ok c ->
+  (exists k, truthy_step (c_step c) = Some k /\ 0 < k) \/ truthy_step (c_step c) = None.
+Proof.
+  unfold init_core.
+  destruct (point_from_expr (f_start f) (Some cs) _) as [[p0|]|]; cbn [bind]; try discriminate;
+    (destruct (point_from_expr (f_end f) ce _) as [s0|]; cbn [bind]; try discriminate).
+  match goal with |- bind ?X _ = _ -> _ => destruct X as [[[a b] st]|] end; cbn [bind]; try discriminate.
+  destruct (truthy_step st) as [k|] eqn:Et.
+  - destruct (k <? 0) eqn:Ek; [discriminate|]. intros [= <-]. cbn [c_step].
+    left. exists k. split; [exact Et|]. apply truthy_step_some in Et. lia.
+  - intros [= <-]. right. exact Et.
+Qed.
+
+Lemma init_regular f items cs ce s : init f items cs ce = Ok s -> regular s.
+Proof.
+  unfold init. destruct (init_core f cs ce) as [c|] eqn:Ec; cbn [bind]; [|discriminate].
+  apply init_core_regular in Ec.
+  assert (H : forall x, regular {| s_core := c; s_excl := x |}).
+  { intros x. destruct Ec as [[k [Hk Hpos]]|Ho]; [left; exists k; split; assumption|right; exact Ho]. }
+  destruct items as [[|it its]|]; try (intros [= <-]; apply H).
+  destruct (build_excl _ _ _); cbn [bind]; [|discriminate]. intros [= <-]. apply H.
+Qed.
+
+(* ================================================================== *)
+(* 12. the named recurrence forms, as dispatched by RECURRENCE_FORMAT_RECS *)
+(* ================================================================== *)
+Definition mkform fmt reps st en intv : form :=
+  {| f_fmt := fmt; f_reps := reps; f_start := st; f_end := en; f_intv := intv |}.
+Definition F_Rn_S_E n S E := mkform 1 (Some n) (Some S) (Some E) None.      (* Rn/START/END *)
+Definition F_S_Pk S k := mkform 3 None (Some S) None (Some k).              (* START/Pk *)
+Definition F_Pk k := mkform 3 None None None (Some k).                      (* Pk *)
+Definition F_Pk_E k E := mkform 4 None None (Some E) (Some k).              (* Pk/END *)
+Definition F_R1_S n S := mkform 3 n (Some S) None None.                     (* R1/START, R/START *)
+Definition F_Rn_S_Pk n S k := mkform 3 n (Some S) None (Some k).            (* Rn/START/Pk *)
+Definition F_Rn__Pk n k := mkform 3 n None None (Some k).                   (* Rn//Pk *)
+Definition F_Rn_Pk_E n k E := mkform 4 n None (Some E) (Some k).            (* Rn/Pk/END *)
+Definition F_Rn_Pk n k := mkform 4 n None None (Some k).                    (* Rn/Pk *)
+Definition F_R1 := mkform 3 (Some 1) None None None.                        (* R1 *)
+Definition F_R1__E E := mkform 4 (Some 1) None (Some E) None.               (* R1//END *)
+
+(* side conditions of the specification: interval >= 1, repetitions >= 2
+   (n = 1 is the one-off shape) *)
+Definition shape_wf (sh : shape) : Prop :=
+  match sh with
+  | OneOff _ => True
+  | Up _ k n | Down _ k n => 1 <= k /\ forall m, n = Some m -> 2 <= m
+  end.
+
+Lemma denote_no_items f cs ce p : denote0 f cs ce p -> denote f None cs ce p.
+Proof. intros H. split; [exact H|]. intros sh its it _ [=]. Qed.
